@@ -34,7 +34,8 @@ fn real_res(f: &Fill, b: u8, kind: u16) -> rqsc::ResourceStructure {
         1 => I::MemoryAffinityStructure(rqsc::MemoryAffinityStructureResource::new(f.u32(b + 2), f.u64(b + 3))),
         2 => I::ACPIDevice(rqsc::ACPIDeviceResource::new(f.u64(b + 3), f.u32(b + 2))),
         3 => I::PCIDevice(rqsc::PCIDeviceResource::new(f.u32(b + 2))),
-        k => I::VendorSpecific(f.u8(b + 4) | 0x80, vendor_bytes(f, b, VENDOR_LENS[(k - 4) as usize])),
+        // the type byte is whatever the caller passes (0..=3 coincide with the typed resource kinds' codes: a look-alike)
+        k => I::VendorSpecific(f.u8(b + 4), vendor_bytes(f, b, VENDOR_LENS[(k - 4) as usize])),
     };
     rqsc::ResourceStructure::new(rt, f.u16(b + 1), id)
 }
@@ -64,7 +65,7 @@ fn ref_res(w: &mut W, f: &Fill, b: u8, kind: u16) {
     };
     let idty = match kind {
         0..=3 => kind as u8,
-        _ => f.u8(b + 4) | 0x80,
+        _ => f.u8(b + 4),
     };
     w.u8(f.e(b, 2) as u8).u8(0).u16((8 + body.len()) as u16).u16(f.u16(b + 1)).u8(0).u8(idty).b(&body);
 }
@@ -73,7 +74,7 @@ impl Table for Rqsc {
         "rqsc"
     }
     fn kinds(&self) -> &'static [&'static str] {
-        &["add_controller"]
+        &["add_controller", "add_controller(QoSController::default())"]
     }
     fn alphabet(&self, _c: &Ctor, _h: &[Op], level: u8) -> Vec<Op> {
         if level == 0 {
@@ -96,6 +97,10 @@ impl Table for Rqsc {
         if !_h.iter().any(|o| o.shape & 32 != 0) {
             v.push(Op::new(0, ctl_shape(0, 1) | 32, fl[0]));
         }
+        // a controller obtained through the derived Default (no resources): 28 bytes like any other empty controller
+        if _h.iter().filter(|o| o.k == 1).count() < 2 {
+            v.push(Op::new(1, 0, 0));
+        }
         v
     }
     fn run(&self, c: &Ctor, ops: &[Op], obs: &mut dyn FnMut(usize, &dyn Aml, &[u32])) {
@@ -103,6 +108,11 @@ impl Table for Rqsc {
         obs(0, &t, &[]);
         for (i, op) in ops.iter().enumerate() {
             let f = &op.fill;
+            if op.k == 1 {
+                t.add_controller(rqsc::QoSController::default());
+                obs(i + 1, &t, &[]);
+                continue;
+            }
             let ct = if f.e(0, 2) == 0 { rqsc::ControllerType::Capacity } else { rqsc::ControllerType::Bandwidth };
             let mut q = rqsc::QoSController::new(ct, real_gas(f, 1), f.u32(6), f.u32(7), f.u16(8));
             for r in 0..nres_of(op) {
@@ -135,6 +145,12 @@ impl Table for Rqsc {
         for op in ops {
             let f = &op.fill;
             let o = w.len();
+            if op.k == 1 {
+                // Default: type 0 (capacity), length 28, zero register / counts / flags, no resources
+                w.u8(0).u8(0).u16(28).z(12).u32(0).u32(0).u16(0).u16(0);
+                ents.push(Ent { off: o, ty: 0, len: 28 });
+                continue;
+            }
             let mut rs = W::new();
             for r in 0..nres_of(op) {
                 ref_res(&mut rs, f, 9 + 5 * (r % 3) as u8, res_kind(op.shape, r));
@@ -180,8 +196,11 @@ impl Table for Rqsc {
     fn summary(&self, img: &[u8], ents: &[Ent]) -> Vec<u64> {
         ents.iter().filter(|e| e.len >= 28).map(|e| rd16(img, e.off + 26) as u64).collect()
     }
-    fn fields(&self, _k: u8, s: u16) -> Vec<FT> {
+    fn fields(&self, k: u8, s: u16) -> Vec<FT> {
         use FT::*;
+        if k == 1 {
+            return vec![];
+        }
         let mut v = vec![E(2)];
         v.extend(gas_fields());
         v.extend([U(32), U(32), U(16)]);
@@ -190,7 +209,10 @@ impl Table for Rqsc {
         }
         v
     }
-    fn shapes(&self, _k: u8) -> Vec<u16> {
+    fn shapes(&self, k: u8) -> Vec<u16> {
+        if k == 1 {
+            return vec![0];
+        }
         let mut s = vec![ctl_shape(0, 0)];
         for k in 0..7 {
             s.push(ctl_shape(1 + k % 3, k));
